@@ -4,6 +4,7 @@ import (
 	"context"
 	"runtime"
 	"strings"
+	"sync"
 	"time"
 
 	"gopkg.in/typ.v4/chans"
@@ -43,6 +44,58 @@ func driveChans(plan []M, out *Out, _ []string) {
 		ch := make(chan int, cp)
 		for i := 1; i <= fill; i++ {
 			ch <- i
+		}
+		if op == "RecvRace" || op == "SendRace" {
+			// n callers released together on one channel: RecvRace: `fill` values queued (channel closed or open), every caller
+			// RecvTimeout(5ms); SendRace: `fill` of `cap` slots taken, every caller SendTimeout(value 100+i, 5ms), nobody receives.
+			n := num(c, "n")
+			if closed {
+				close(ch)
+			}
+			type res struct {
+				v  int
+				ok bool
+			}
+			results := make([]res, n)
+			finished := make([]bool, n)
+			var wg sync.WaitGroup
+			start := make(chan struct{})
+			for i := 0; i < n; i++ {
+				wg.Add(1)
+				go func(i int) {
+					defer wg.Done()
+					<-start
+					if op == "RecvRace" {
+						results[i].v, results[i].ok = chans.RecvTimeout(ch, 5*time.Millisecond)
+					} else {
+						results[i].v, results[i].ok = 100+i, chans.SendTimeout(ch, 100+i, 5*time.Millisecond)
+					}
+					finished[i] = true
+				}(i)
+			}
+			close(start)
+			done := make(chan struct{})
+			go func() { wg.Wait(); close(done) }()
+			blocked := 0
+			select {
+			case <-done:
+			case <-time.After(2 * time.Second):
+				for i := range finished {
+					if !finished[i] {
+						blocked++
+					}
+				}
+			}
+			vs, oks := []int{}, []bool{}
+			if blocked == 0 {
+				for _, r := range results {
+					vs, oks = append(vs, r.v), append(oks, r.ok)
+				}
+				e["rest"] = drain(ch)
+			}
+			e["n"], e["vs"], e["oks"], e["nblocked"], e["panic"] = n, vs, oks, blocked, ""
+			out.Emit(e)
+			continue
 		}
 		if op == "RecvQueued" || op == "RecvQueuedFull" {
 			stop := make(chan struct{})
